@@ -167,6 +167,25 @@ fn zigzag_varint(n: u64, out: &mut Vec<u8>) {
     }
 }
 
+/// header of an array/map block: `count`, or (sized layout) `-count` followed by the byte size of the items
+fn block_header(count: u64, sized: bool, payload: u64, out: &mut Vec<u8>) {
+    if sized && count > 0 {
+        // zig-zag of the negative long -count
+        let mut z = (count << 1) - 1;
+        loop {
+            if z <= 0x7f {
+                out.push(z as u8);
+                break;
+            }
+            out.push(0x80 | (z & 0x7f) as u8);
+            z >>= 7;
+        }
+        zigzag_varint(payload, out);
+    } else {
+        zigzag_varint(count, out);
+    }
+}
+
 /// Everything that can be prepared before the call is prepared here, so that the recorded call
 /// interval is as tight as possible around the library call.
 enum Prepared {
@@ -646,7 +665,12 @@ struct Probe {
 fn probe_datum(schema: &Schema, kind: &'static str, len: u64, isz: u64, per_item: &[u8], terminator: bool) -> Probe {
     let supplied = len <= SUPPLY_MAX;
     let mut d = Vec::new();
-    zigzag_varint(len, &mut d);
+    if kind.ends_with("-sized") {
+        // the block layout with a negative count and a byte size (spec-legal; the crate's own writer never emits it)
+        block_header(len, true, if supplied { len * per_item.len() as u64 } else { 0 }, &mut d);
+    } else {
+        zigzag_varint(len, &mut d);
+    }
     if supplied {
         for _ in 0..len {
             d.extend_from_slice(per_item);
@@ -715,15 +739,18 @@ fn probe_fixed(kind: &'static str, n: u64) -> Probe {
 /// the schema-aware deserializer bounds the declared block COUNT of arrays and maps by the limit (items may be
 /// zero bytes wide): array<null> -> Vec<()>, array<int> -> Vec<i32>, map<int> -> HashMap<String, i32>
 fn probe_deser_coll(kind: &'static str, count: u64) -> Probe {
+    let sized = kind.ends_with("-sized");
+    let kind_full = kind;
+    let kind = kind.trim_end_matches("-sized");
     let supplied = kind == "deser-array-null" || count <= SUPPLY_MAX;
+    let per: &[u8] = match kind {
+        "deser-array-null" => &[],
+        "deser-array" => &[0],
+        _ => &[0, 0],
+    };
     let mut d = Vec::new();
-    zigzag_varint(count, &mut d);
+    block_header(count, sized, if supplied { count * per.len() as u64 } else { 0 }, &mut d);
     if supplied {
-        let per: &[u8] = match kind {
-            "deser-array-null" => &[],
-            "deser-array" => &[0],
-            _ => &[0, 0],
-        };
         for _ in 0..count {
             d.extend_from_slice(per);
         }
@@ -757,7 +784,7 @@ fn probe_deser_coll(kind: &'static str, count: u64) -> Probe {
             classify(r, |m| (count == 0 && m.is_empty()) || (count > 0 && m.len() == 1))
         }
     };
-    Probe { kind, len: count, isz: 1, supplied, out }
+    Probe { kind: kind_full, len: count, isz: 1, supplied, out }
 }
 
 fn probe_block(b: u64) -> Probe {
@@ -889,9 +916,12 @@ fn cmd_limit1(limit: u64, mode: &str, big: bool) -> i32 {
             probes.push(probe_fixed("deser-fixed", len));
             probes.push(probe_deser_coll("deser-array", len));
             probes.push(probe_deser_coll("deser-map", len));
+            probes.push(probe_deser_coll("deser-array-sized", len));
+            probes.push(probe_deser_coll("deser-map-sized", len));
             if !huge {
                 // count iterations of a zero-width item: only where the count is small enough to iterate
                 probes.push(probe_deser_coll("deser-array-null", len));
+                probes.push(probe_deser_coll("deser-array-null-sized", len));
             }
             // a container header declares lengths ("avro.schema" is 11 bytes, two map entries) above tiny limits
             if (!huge || big) && l >= 4096 {
@@ -925,6 +955,7 @@ fn cmd_limit1(limit: u64, mode: &str, big: bool) -> i32 {
             for c in counts {
                 // beyond the supply bound the items are not supplied (the first missing item ends the read)
                 probes.push(probe_datum(&schema, kind, c, isz, item, true));
+                probes.push(probe_datum(&schema, if kind == "array" { "array-sized" } else { "map-sized" }, c, isz, item, true));
             }
         }
     }
